@@ -14,6 +14,28 @@ Ltac bsplit :=
   | H : andb _ _ = true |- _ => apply andb_true_iff in H; destruct H
   end.
 
+(* lia in a small context (the contexts of the main induction are large) *)
+Ltac nlia :=
+  repeat match goal with
+  | H : ?T |- _ =>
+      lazymatch T with
+      | (_ <= _)%nat => fail
+      | (_ < _)%nat => fail
+      | _ => clear H
+      end
+  end; lia.
+Ltac zlia :=
+  repeat match goal with
+  | H : ?T |- _ =>
+      lazymatch T with
+      | (_ <? _) = true => fail
+      | (_ <=? _) = true => fail
+      | (_ < _)%Z => fail
+      | (_ <= _)%Z => fail
+      | _ => clear H
+      end
+  end; lia.
+
 (* ---------- trees ---------- *)
 
 Fixpoint xsize (c : xtree) : nat :=
@@ -246,31 +268,31 @@ Section ClimbX.
     - (* atom *)
       injection Hy as <- <-. cbn [app].
       rewrite (EFc_S cfg Hei), (PPc_atom cfg Hid Hint) by assumption.
-      exists f, t0. split; [lia|reflexivity].
+      exists f, t0. split; [nlia|reflexivity].
     - (* group *)
       bsplit. injection Hy as <- <-.
       destruct (xyield_cons e) as (a1 & l1 & Ee). rewrite Ee.
       replace (((a1 :: l1) ++ [rp]) ++ t :: rest) with (a1 :: l1 ++ rp :: t :: rest)
         by (cbn [app]; rewrite <- app_assoc; reflexivity).
       rewrite (EFc_S cfg Hei), PPx_group by (apply Z.eqb_eq; assumption).
-      destruct f as [|f']; [lia|].
-      assert (Hrps : stops P_LOWEST rp = true) by (apply rp_stops; [apply Z.eqb_eq; assumption|lia]).
+      destruct f as [|f']; [nlia|].
+      assert (Hrps : stops P_LOWEST rp = true) by (apply rp_stops; [apply Z.eqb_eq; assumption|apply Z.le_refl]).
       destruct (IH P_LOWEST x a1 l1 rp (t :: rest) f') as (m1 & a1' & Hm1 & E1);
-        [assumption|apply wg_right_low; assumption|exact Ee| |lia|].
+        [assumption|apply wg_right_low; assumption|exact Ee| |nlia|].
       { eapply fstop_right; [|eassumption|apply wg_right_low; assumption|exact Hrps].
         unfold P_LOWEST, P_UNARY. lia. }
-      rewrite E1. destruct m1 as [|m1]; [lia|]. rewrite RLx_stop by assumption.
+      rewrite E1. destruct m1 as [|m1]; [nlia|]. rewrite RLx_stop by assumption.
       rewrite expect_St by (apply Z.eqb_eq; assumption). cbn [negb]. rewrite cur_St.
-      exists (S f'), rp. split; [lia|reflexivity].
+      exists (S f'), rp. split; [nlia|reflexivity].
     - (* prefix operator *)
       bsplit. injection Hy as <- <-.
       destruct (xyield_cons e) as (a1 & l1 & Ee). rewrite Ee. cbn [app].
       rewrite (EFc_S cfg Hei), PPx_pre by assumption.
-      destruct f as [|f']; [lia|].
+      destruct f as [|f']; [nlia|].
       destruct (IH P_UNARY x a1 l1 t rest f') as (m1 & a1' & Hm1 & E1);
-        [assumption|assumption|exact Ee|assumption|lia|].
-      rewrite E1. destruct m1 as [|m1]; [lia|]. rewrite RLx_stop by assumption.
-      exists (S f'), a1'. split; [lia|reflexivity].
+        [assumption|assumption|exact Ee|assumption|nlia|].
+      rewrite E1. destruct m1 as [|m1]; [nlia|]. rewrite RLx_stop by assumption.
+      exists (S f'), a1'. split; [nlia|reflexivity].
     - (* postfix operator *)
       bsplit.
       destruct (xyield_cons e) as (a1 & l1 & Ee). rewrite Ee in Hy. cbn [app] in Hy.
@@ -279,11 +301,11 @@ Section ClimbX.
         by (rewrite <- app_assoc; reflexivity).
       destruct (post_facts _ ltac:(eassumption)) as [F1 _].
       destruct (IH prec x a1 l1 op (t :: rest) f) as (m & a' & Hm & E1);
-        [assumption|assumption|exact Ee| |lia|].
-      { eapply fstop_spine; [assumption|eassumption|]. unfold stopsc. rewrite F1. lia. }
-      rewrite E1. destruct m as [|m]; [lia|].
-      rewrite RLx_post by (assumption || lia).
-      exists m, op. split; [lia|reflexivity].
+        [assumption|assumption|exact Ee| |nlia|].
+      { eapply fstop_spine; [assumption|eassumption|]. unfold stopsc. rewrite F1. zlia. }
+      rewrite E1. destruct m as [|m]; [nlia|].
+      rewrite RLx_post by (assumption || (apply Z.ltb_lt; assumption) || lia).
+      exists m, op. split; [nlia|reflexivity].
     - (* binary operator *)
       destruct (op_level cfg (t_type op)) as [k|] eqn:Ek; [|discriminate]. bsplit.
       destruct (op_facts _ _ _ Ek) as (F1 & _).
@@ -292,15 +314,15 @@ Section ClimbX.
       replace ((l1 ++ op :: b :: lr) ++ t :: rest) with (l1 ++ op :: b :: lr ++ t :: rest)
         by (rewrite <- app_assoc; reflexivity).
       destruct (IHl prec x a1 l1 op (b :: lr ++ t :: rest) f) as (m & a' & Hm & E1);
-        [assumption|assumption|exact El| |lia|].
-      { eapply fstop_spine; [assumption|eassumption|]. unfold stopsc. rewrite F1. lia. }
-      rewrite E1. destruct m as [|m]; [lia|].
-      rewrite (RLc_bin cfg _ _ _ _ _ _ _ _ _ k) by (assumption || lia).
-      destruct f as [|f']; [lia|].
+        [assumption|assumption|exact El| |nlia|].
+      { eapply fstop_spine; [assumption|eassumption|]. unfold stopsc. rewrite F1. zlia. }
+      rewrite E1. destruct m as [|m]; [nlia|].
+      rewrite (RLc_bin cfg _ _ _ _ _ _ _ _ _ k) by (assumption || (apply Z.ltb_lt; assumption) || lia).
+      destruct f as [|f']; [nlia|].
       destruct (IHr k x b lr t rest f') as (m2 & b' & Hm2 & E2);
-        [assumption|assumption|exact Er|assumption|lia|].
-      rewrite E2. destruct m2 as [|m2]; [lia|]. rewrite RLx_stop by assumption.
-      exists m, b'. split; [lia|reflexivity].
+        [assumption|assumption|exact Er|assumption|nlia|].
+      rewrite E2. destruct m2 as [|m2]; [nlia|]. rewrite RLx_stop by assumption.
+      exists m, b'. split; [nlia|reflexivity].
   Qed.
 
   Lemma expr_top_x c x a l t rest f :
@@ -312,7 +334,7 @@ Section ClimbX.
       [|assumption|].
     { eapply fstop_right; [|exact Hw|apply wg_right_low; exact Hw|exact Hst].
       unfold P_LOWEST, P_UNARY. lia. }
-    rewrite E. destruct m as [|m]; [lia|]. rewrite RLx_stop by assumption. eauto.
+    rewrite E. destruct m as [|m]; [nlia|]. rewrite RLx_stop by assumption. eauto.
   Qed.
 
   (* ---------- the statement, the program ---------- *)
